@@ -23,6 +23,8 @@ judge-c11-session <tls 0|1> <hex stream> => <observed completions>
        cause=late-error-empty-tag       error at the final CR / LF: BAD with an EMPTY tag instead of the line's tag
        cause=untagged-line-empty-tag    line without a tag: completion with an EMPTY tag instead of `*`
        cause=first-line-bad-tag-drops   first line starting with a non-tag byte: connection dropped, no reply
+       cause=bare-lf-swallows-next-line a line ended by a bare LF is answered only when the next line has arrived, and
+                                        that next line is skipped as "invalid input": it is never answered
        cause=starttls-without-tls-drops STARTTLS without TLS configuration: connection dropped, no reply
      and, for streams without `{` and without bare LF (the hypotheses of
      `Gluon.C11.completions_eq_crlf_lines_partial`), the number of lines the reader model found is cross-checked
@@ -206,6 +208,22 @@ def walk (cfg : Cfg) : Nat → Nat → List Line → SState JState → Option By
           else
             walk cfg fuel (i + 1 + run.length) rest st' idleWant' (obs.drop rr'.length) (checkRun a (i + 1) run rr)
 
+/-- for every line the reader hands on: did the failed `Parse` stop with the line's own LF as look-ahead, so that
+`ConsumeInvalidInput` went on to skip the line AFTER it (never when `skipStopsAtLookaheadLF`)? -/
+def swallowFlags (cfg : Cfg) (fuel : Nat) : Nat → PState → List Bool
+  | 0, _ => []
+  | n + 1, s =>
+    match readStep cfg fuel s with
+    | .exit _ => []
+    | .line l s' =>
+      let f := !skipStopsAtLookaheadLF &&
+        (match l.res, parseLine fuel s with
+          | .err _, .err (.parse _) s1 => s1.cur.ty == .lf
+          | _, _ => false)
+      match l.res with
+      | .tlsOk _ => [f]
+      | _ => f :: swallowFlags cfg fuel n s'
+
 def noBareCRLF : Bytes → Bool
   | 13 :: 10 :: r => noBareCRLF r
   | 13 :: _ => false
@@ -241,6 +259,12 @@ def judge (args : List String) : String :=
               | .panic => a.cause "cause=model-panic" "the parser model panicked"
               | .outOfFuel => a.cause "cause=model-out-of-fuel" "the reader model ran out of iterations"
               | e => a.feat (showExit e)
+          -- a line ended by a bare LF that took the following line with it
+          let flags := swallowFlags cfg (fuelFor input) (iterFor input) (PState.init input)
+          let a := (List.zip (List.range r.1.length) (List.zip r.1 flags)).foldl (fun a (x : Nat × Line × Bool) =>
+            if x.2.2 then
+              a.cause "cause=bare-lf-swallows-next-line" s!"line {x.1} ends with a bare LF: the failed Parse stops with that LF as look-ahead, ConsumeInvalidInput then skips to the NEXT LF — the server answers only once the following line has arrived, and that line is never answered: {showHex (x.2.1.bytes.take 60)}"
+            else a) a
           -- independent cross-check of the line segmentation
           let a :=
             if why.isNone && !input.contains 123 && lfOk input then
